@@ -35,6 +35,7 @@ Proof.
   - exact Hnd.
   - exact (i_height _ I).
   - exact (i_seq _ I).
+  - apply keys_set_NoDup. exact (i_nodup _ I).
 Qed.
 
 (** the queue is unchanged and the pool keeps its end height *)
@@ -84,9 +85,10 @@ Lemma pool_inv_after h b p amt p1 b1 fs' :
   pool_inv h p -> update_pool h b p amt false = (p1, b1, true) ->
   (0 < p_locked p + amt -> p_start p <= h) ->
   asum f_locked fs' = p_locked p + amt -> Forall finfo_ok (vals fs') -> NoDup (keys fs') ->
+  Forall (fun f => 0 < f_locked f) (vals fs') ->
   pool_inv h (with_farmers p1 fs').
 Proof.
-  intros PI Hu Hst Hsum Hfs Hnd. destruct (update_pool_true _ _ _ _ _ _ _ Hu) as (Hlast & Hne & Hcov & -> & _).
+  intros PI Hu Hst Hsum Hfs Hnd Hpos'. destruct (update_pool_true _ _ _ _ _ _ _ Hu) as (Hlast & Hne & Hcov & -> & _).
   constructor; simpl.
   - exact Hsum.
   - exact Hfs.
@@ -100,6 +102,7 @@ Proof.
     + pose proof (pi_started _ _ PI HL). lia.
   - exact (pi_creator _ _ PI).
   - exact Hnd.
+  - exact Hpos'.
 Qed.
 
 Lemma covered_after h b p amt p1 b1 fs' :
@@ -204,7 +207,8 @@ Proof.
   pose proof (cacl_rw_nonneg _ _ _ _ _ _ Hc) as Hrw.
   unfold with_bank, with_pools. simpl.
   apply (inv_replace_same_queue s pid p _ b3 I Hg).
-  - apply (pool_inv_after _ _ _ _ _ _ _ PI Hu); [lia| | |apply keys_set_NoDup; rewrite Hfs; exact (pi_nodup _ _ PI)].
+  - apply (pool_inv_after _ _ _ _ _ _ _ PI Hu); [lia| | |apply keys_set_NoDup; rewrite Hfs; exact (pi_nodup _ _ PI)
+                                                  |apply Forall_vals_set; [rewrite Hfs; exact (pi_pos _ _ PI)|simpl; lia]].
     + rewrite asum_set. rewrite Hfs. change (asum f_locked (p_farmers p)) with (sum_locked p). rewrite (pi_sum _ _ PI).
       unfold fi, get_finfo. rewrite Hfs. unfold acct. dget; simpl; lia.
     + apply Forall_vals_set; [rewrite Hfs; exact (pi_farmers _ _ PI)|].
@@ -246,6 +250,7 @@ Proof.
     + apply Forall_vals_set; [rewrite Hfs; exact (pi_farmers _ _ PI)|].
       split; [simpl; lia|simpl; exact (cacl_db_nonneg _ _ _ _ _ _ Hc)].
     + apply keys_set_NoDup. rewrite Hfs. exact (pi_nodup _ _ PI).
+    + apply Forall_vals_set; [rewrite Hfs; exact (pi_pos _ _ PI)|]. simpl. exact (Forall_vals_get _ _ _ _ (pi_pos _ _ PI) Hfi).
   - simpl. exact Hend.
   - intros _ Hcov. exact (covered_after _ _ _ _ _ _ _ PI Hu Hcov).
   - intros d. rewrite (contrib_after _ _ _ _ _ _ _ d Hu). rewrite Hb3, Hb2.
@@ -287,6 +292,13 @@ Qed.
 Lemma unstake_fs_nodup who l' db fs : NoDup (keys fs) -> NoDup (keys (unstake_fs who l' db fs)).
 Proof. intros H. unfold unstake_fs. destruct (l' =? 0); [apply keys_del1_NoDup|apply keys_set_NoDup]; exact H. Qed.
 
+Lemma unstake_fs_pos who l' db fs : Forall (fun f => 0 < f_locked f) (vals fs) -> 0 <= l' ->
+  Forall (fun f => 0 < f_locked f) (vals (unstake_fs who l' db fs)).
+Proof.
+  intros H Hl. unfold unstake_fs. destruct (Z.eqb_spec l' 0); [apply Forall_vals_del1; exact H|].
+  apply Forall_vals_set; [exact H|simpl; lia].
+Qed.
+
 Lemma unstake_fs_owed rs d who l' db fs fi : get who fs = Some fi ->
   asum (owed_f rs d) (unstake_fs who l' db fs) <= asum (owed_f rs d) fs - owed_f rs d fi + owed_f rs d (mkF l' db).
 Proof.
@@ -312,7 +324,8 @@ Proof.
     inversion Hu; subst p1 b1. clear Hu. simpl in *.
     apply (inv_replace_same_queue s pid p _ b3 I Hg).
     + constructor; [ | |exact (pi_rules _ _ PI)|exact (pi_rule _ _ PI)|exact (pi_denoms _ _ PI)|exact (pi_last _ _ PI)
-                    | |exact (pi_fresh _ _ PI)|exact (pi_creator _ _ PI)|simpl; apply unstake_fs_nodup; exact (pi_nodup _ _ PI)].
+                    | |exact (pi_fresh _ _ PI)|exact (pi_creator _ _ PI)|simpl; apply unstake_fs_nodup; exact (pi_nodup _ _ PI)
+                    |simpl; apply unstake_fs_pos; [exact (pi_pos _ _ PI)|lia]].
       * rewrite sum_locked_eq. simpl.
         fold (unstake_fs who (f_locked fi - amt) db (p_farmers p)). rewrite (unstake_fs_sum _ _ _ _ _ Hfi). rewrite <- sum_locked_eq. rewrite (pi_sum _ _ PI). lia.
       * simpl. apply unstake_fs_ok; [exact (pi_farmers _ _ PI)|lia|exact Hdb].
@@ -339,6 +352,7 @@ Proof.
       * rewrite (unstake_fs_sum _ _ _ _ _ Hfi). change (asum f_locked (p_farmers p)) with (sum_locked p). rewrite (pi_sum _ _ PI). lia.
       * apply unstake_fs_ok; [exact (pi_farmers _ _ PI)|lia|exact Hdb].
       * apply unstake_fs_nodup. exact (pi_nodup _ _ PI).
+      * apply unstake_fs_pos; [exact (pi_pos _ _ PI)|lia].
     + simpl. exact Hend.
     + intros _ Hcov. exact (covered_after _ _ _ _ _ _ _ PI Hu Hcov).
     + intros d. rewrite (contrib_after _ _ _ _ _ _ _ d Hu). rewrite Hb3, Hb2, Hb1.
